@@ -11,6 +11,7 @@ newly made calculator without undo buffer evaluated at the same vector.
 from __future__ import annotations
 
 import math
+import numpy
 
 from hypothesis import strategies as st
 
@@ -114,7 +115,11 @@ def lf_cases(draw):
     steps = []
     for _ in range(draw(st.integers(1, 10))):
         kind = draw(st.sampled_from(["param"] * 6 + ["mprobs", "alignment", "postponed", "postponed", "optimise", "rules"]))
-        if kind == "param":
+        if kind == "param" and model == "HKY85+G" and draw(st.integers(0, 5)) == 0:
+            # the bin probabilities are parameters too (kept well inside the bounds the optimiser puts on them)
+            w = draw(st.lists(st.sampled_from([0.02, 0.05, 0.3, 1.0]), min_size=3, max_size=3))
+            steps.append({"op": "set_bprobs", "probs": [x / sum(w) for x in w]})
+        elif kind == "param":
             steps.append(draw(param_step(model, edges)))
         elif kind == "mprobs":
             steps.append({"op": "set_mprobs", "probs": draw(mprobs_st())})
@@ -130,7 +135,10 @@ def lf_cases(draw):
             steps.append({"op": "optimise", "max_evals": draw(st.integers(1, 20))})
         else:
             steps.append({"op": "rules"})
-    return {"model": model, "tree": newick, "edges": edges, "aln": aln, "steps": steps}
+    case = {"model": model, "tree": newick, "edges": edges, "aln": aln, "steps": steps}
+    if model == "HKY85+G" and not any(st_["op"] == "set_bprobs" for st_ in steps) and draw(st.booleans()):
+        case["bins"] = 4
+    return case
 
 
 # ---------------------------------------------------------------- helpers
@@ -150,6 +158,8 @@ def build_lf(case, rows):
     from cogent3 import make_aligned_seqs, make_tree
 
     sm, kw = make_model(case["model"])
+    if "bins" in kw and case.get("bins"):
+        kw["bins"] = case["bins"]
     lf = sm.make_likelihood_function(make_tree(case["tree"]), **kw)
     lf.set_alignment(make_aligned_seqs(dict(rows), moltype="dna"))
     return lf
@@ -164,6 +174,9 @@ def fresh_lnl(case, rows, lf):
     f = build_lf(case, rows)
     mp = lf.get_motif_probs()
     f.set_motif_probs(mp.to_dict() if hasattr(mp, "to_dict") else dict(mp), is_constant=True)
+    if "bprobs" in lf.get_param_names():
+        # the bin probabilities of a rate-heterogeneity model are free parameters too
+        f.set_param_rule("bprobs", value=numpy.array(lf.get_param_value("bprobs"), dtype=float), is_constant=True)
     for par in scoped_params(lf):
         if par == "rate_shape":
             f.set_param_rule(par, value=float(lf.get_param_value(par)), is_constant=True)
@@ -172,6 +185,20 @@ def fresh_lnl(case, rows, lf):
             v = float(lf.get_param_value(par, edge=e))
             f.set_param_rule(par, edge=e, value=v, is_constant=True)
     return f.lnL
+
+
+def _prob_floor_tag(lf):
+    """names the circumstance in which exported rules are documented to differ from the state:
+    Setting.get_param_rule_dict lifts every exported probability vector above 1e-6"""
+    for par in ("bprobs", "mprobs"):
+        if par in lf.get_param_names():
+            try:
+                v = numpy.asarray(lf.get_param_value(par), dtype=float)
+            except Exception:  # noqa: BLE001
+                continue
+            if v.size and float(v.min()) <= 1e-6:
+                return "[probability-below-1e-6]"
+    return ""
 
 
 def apply_param(lf, st_, gs_pars):
@@ -194,16 +221,31 @@ def apply_param(lf, st_, gs_pars):
     return par
 
 
-def _infeasible():
+def _infeasible():  # see GS_OK below
     """GeneralStationary documents ParameterOutOfBoundsError for rate combinations without a valid stationary solution"""
     from cogent3.maths.optimisers import ParameterOutOfBoundsError
 
     return (ParameterOutOfBoundsError,)
 
 
+class _GSOK(dict):
+    """GeneralStationary may reject a rate combination (ParameterOutOfBoundsError) at whichever call
+    first evaluates it: set_param_rule, set_motif_probs, set_alignment, lnL, optimise, make_calculator"""
+
+    def get(self, model, default=()):
+        return _infeasible() if model == "GS" else default
+
+
+GS_OK = _GSOK()
+
+
 def close(a, b, rtol=1e-9):
-    if a is None or b is None or math.isnan(a) or math.isnan(b):
+    if a is None or b is None:
         return False
+    if math.isnan(a) or math.isnan(b):
+        # vectors beyond the bounds have no likelihood: nan from both the incremental
+        # and the fresh calculator is agreement, nan from one of them is not
+        return math.isnan(a) and math.isnan(b)
     if math.isinf(a) or math.isinf(b):
         return a == b
     return abs(a - b) <= rtol * max(1.0, abs(a), abs(b))
@@ -214,7 +256,7 @@ def exec_lf(case) -> Soft:
     s = Soft("C07/")
     model = case["model"]
     rows = dict(case["aln"])
-    ok, lf = s.call("construct", build_lf, case, rows)
+    ok, lf = s.call("construct", build_lf, case, rows, allowed=GS_OK.get(case["model"], ()))
     if not ok:
         return s
     gs_pars = [p for p in scoped_params(lf) if p != "length"] if model == "GS" else []
@@ -224,10 +266,10 @@ def exec_lf(case) -> Soft:
     seen_postponed = False
 
     def verify(tag, what):
-        ok, got = s.call(tag + "/lnL", lambda: float(lf.lnL))
+        ok, got = s.call(tag + "/lnL", lambda: float(lf.lnL), allowed=GS_OK.get(case["model"], ()))
         if not ok:
             return
-        ok, want = s.call(tag + "/fresh", fresh_lnl, case, rows, lf)
+        ok, want = s.call(tag + "/fresh", fresh_lnl, case, rows, lf, allowed=GS_OK.get(case["model"], ()))
         if not ok:
             return
         if not close(got, want):
@@ -252,8 +294,16 @@ def exec_lf(case) -> Soft:
             if seen_postponed:
                 postponed_then_change = True
             verify("set_param_rule", what)
+        elif op == "set_bprobs":
+            ok, _ = s.call("set_bprobs", lambda: lf.set_param_rule("bprobs", init=numpy.array(st_["probs"], dtype=float)))
+            if not ok:
+                return s
+            okv, v = s.call("get_param_value", lambda: [float(x) for x in lf.get_param_value("bprobs")])
+            if okv:
+                s.check(all(close(a_, b_, 1e-9) for a_, b_ in zip(v, st_["probs"])), "set_param_rule/value-not-applied", f"{what}: bprobs reported {v}")
+            verify("set_param_rule", what)
         elif op == "set_mprobs":
-            ok, _ = s.call("set_motif_probs", lambda: lf.set_motif_probs(dict(zip("ACGT", st_["probs"]))))
+            ok, _ = s.call("set_motif_probs", lambda: lf.set_motif_probs(dict(zip("ACGT", st_["probs"]))), allowed=GS_OK.get(case["model"], ()))
             if not ok:
                 return s
             verify("set_motif_probs", what)
@@ -261,7 +311,7 @@ def exec_lf(case) -> Soft:
             from cogent3 import make_aligned_seqs
 
             rows = dict(st_["rows"])
-            ok, _ = s.call("set_alignment", lambda: lf.set_alignment(make_aligned_seqs(dict(rows), moltype="dna")))
+            ok, _ = s.call("set_alignment", lambda: lf.set_alignment(make_aligned_seqs(dict(rows), moltype="dna")), allowed=GS_OK.get(case["model"], ()))
             if not ok:
                 return s
             verify("set_alignment", what)
@@ -282,8 +332,8 @@ def exec_lf(case) -> Soft:
             verify("updates_postponed", what)
         elif op == "optimise":
             before = None
-            okb, before = s.call("optimise/before", lambda: float(lf.lnL))
-            ok, _ = s.call("optimise", lambda: lf.optimise(local=True, max_evaluations=st_["max_evals"], limit_action="ignore", show_progress=False))
+            okb, before = s.call("optimise/before", lambda: float(lf.lnL), allowed=GS_OK.get(case["model"], ()))
+            ok, _ = s.call("optimise", lambda: lf.optimise(local=True, max_evaluations=st_["max_evals"], limit_action="ignore", show_progress=False), allowed=GS_OK.get(case["model"], ()))
             if not ok:
                 return s
             verify("optimise", what)
@@ -298,12 +348,12 @@ def exec_lf(case) -> Soft:
                 f.apply_param_rules(rules)
                 return f
 
-            ok, f2 = s.call("apply_param_rules", rebuild)
+            ok, f2 = s.call("apply_param_rules", rebuild, allowed=GS_OK.get(case["model"], ()))
             if ok:
-                okl, l2 = s.call("apply_param_rules/lnL", lambda: float(f2.lnL))
-                okl2, l1 = s.call("rules/lnL", lambda: float(lf.lnL))
+                okl, l2 = s.call("apply_param_rules/lnL", lambda: float(f2.lnL), allowed=GS_OK.get(case["model"], ()))
+                okl2, l1 = s.call("rules/lnL", lambda: float(lf.lnL), allowed=GS_OK.get(case["model"], ()))
                 if okl and okl2 and not close(l1, l2):
-                    s.fail("rules-roundtrip/lnL", f"{what}: lnL {l1!r} after export/import {l2!r}")
+                    s.fail("rules-roundtrip/lnL" + _prob_floor_tag(lf), f"{what}: lnL {l1!r} after export/import {l2!r}")
                 okn, (n1, n2) = s.call("rules/nfp", lambda: (lf.get_num_free_params(), f2.get_num_free_params()))
                 if okn:
                     s.eq(n2, n1, "rules-roundtrip/num-free-params", what)
@@ -337,15 +387,15 @@ def calc_cases(draw):
 def exec_calc(case) -> Soft:
     s = Soft("C07/calc/")
     rows = dict(case["aln"])
-    ok, lf = s.call("construct", build_lf, case, rows)
+    ok, lf = s.call("construct", build_lf, case, rows, allowed=GS_OK.get(case["model"], ()))
     if not ok:
         return s
     gs_pars = [p for p in scoped_params(lf) if p != "length"] if case["model"] == "GS" else []
     for st_ in case["setup"]:
-        ok, _ = s.call("setup", apply_param, lf, st_, gs_pars)
+        ok, _ = s.call("setup", apply_param, lf, st_, gs_pars, allowed=GS_OK.get(case["model"], ()))
         if not ok:
             return s
-    ok, calc = s.call("make_calculator", lf.make_calculator)
+    ok, calc = s.call("make_calculator", lf.make_calculator, allowed=GS_OK.get(case["model"], ()))
     if not ok:
         return s
     ok, x0 = s.call("get_value_array", lambda: [float(v) for v in calc.get_value_array()])
@@ -360,6 +410,7 @@ def exec_calc(case) -> Soft:
     history = []
     reverted = False
     after_raise = False
+    pending_full = False
 
     def target(i, frac, beyond):
         # a value inside a sane part of the optimiser's range for coordinate i
@@ -387,7 +438,10 @@ def exec_calc(case) -> Soft:
             fr = (mv["fracs"] * n)[: len(idxs)]
             for i, f in zip(idxs, fr):
                 new[i] = target(i, f, mv["beyond"] and i == idxs[0])
-            use_change = kind == "change"
+            # after a rejected vector the caller cannot know which vector the calculator is
+            # at (change() may have undone the previous step before it failed), so the next
+            # evaluation passes the whole vector, as the optimisers do
+            use_change = kind == "change" and not pending_full
         what = f"model {case['model']} tree {case['tree']} setup {case['setup']} moves {history + [mv]} vector {new}"
         history.append(mv)
         try:
@@ -414,16 +468,22 @@ def exec_calc(case) -> Soft:
             if (raised is None) != (want_raised is None):
                 s.fail("raise-mismatch", f"{what}: incremental {'raised ' + repr(raised) if raised else 'returned'}; fresh {'raised ' + repr(want_raised) if want_raised else 'returned'}")
             after_raise = True
-            # the vector is rejected: the calculator must behave as if still at `cur`
+            pending_full = True
+            # the vector is rejected: the calculator must be left in a coherent state, i.e. the
+            # value it reports is the value of the vector it records as current (change() restores
+            # last_values; which accepted vector that is, is not specified: an undo of the previous
+            # step may already have happened)
             okc, back = s.call("testfunction-after-raise", lambda: float(calc.testfunction()))
             if okc and raised is not None:
+                at = [float(v) for v in calc.last_values]
                 try:
-                    ref = float(lf.make_calculator(with_undo=False)(cur))
-                    if not close(back, ref):
-                        s.fail("rollback/value", f"{what}: after the rejected vector the calculator reports {back!r}, a fresh calculator at the previous vector gives {ref!r}")
+                    ref = float(lf.make_calculator(with_undo=False)(at))
                 except Exception:  # noqa: BLE001
-                    pass
+                    ref = None
+                if ref is not None and not close(back, ref):
+                    s.fail("rollback/value", f"{what}: after the rejected vector the calculator reports {back!r} for its recorded vector {at}, a fresh calculator there gives {ref!r}")
             continue
+        pending_full = False
         if not close(got, want):
             sig = "value-vs-fresh"
             if after_raise:
